@@ -75,7 +75,8 @@ def roundtrip(ctx, doc, tag, route, rng, packets=8, style=("prefix", "xtce")):
     D = ld.value
     w = monitored(definition_to_bytes, D)
     if w.exc is not None:
-        ctx.violation(f"{route}/write/{type(w.exc).__name__}/{why_write(doc)}", f"to_xml raised {w.exc!r} for a representable definition", dict(wit, features=fs))
+        why = why_write(doc) if isinstance(w.exc, (KeyError, ValueError, TypeError)) else "-"
+        ctx.violation(f"{route}/write/{type(w.exc).__name__}/{why}", f"to_xml raised {w.exc!r} for a representable definition", dict(wit, features=fs))
         return False
     W = w.value
     try:
